@@ -15,6 +15,7 @@ import (
 
 	task "github.com/go-task/task/v3"
 	taskerrors "github.com/go-task/task/v3/errors"
+	"github.com/go-task/task/v3/internal/templater"
 	"github.com/go-task/task/v3/taskfile"
 	"github.com/go-task/task/v3/taskfile/ast"
 	cg "github.com/go-task/task/v3/verifharness/coqgen"
@@ -112,15 +113,54 @@ func parseStandalone(full string) (*ast.Taskfile, error) {
 func (t *Tree) fsCoq(d *dumper) (string, map[string]*ast.Taskfile, error) {
 	var items []string
 	parsed := map[string]*ast.Taskfile{}
+	names := map[string]bool{}
 	for _, p := range t.Order {
 		tf, err := parseStandalone(filepath.Join(t.Root, p))
 		if err != nil {
 			return "", nil, fmt.Errorf("%s: %w", p, err)
 		}
 		parsed["/R/"+p] = tf
+		for _, in := range tf.Includes.All() {
+			for _, raw := range []string{in.Taskfile, in.Dir} {
+				if err := tplGlue(raw); err != nil {
+					return "", nil, fmt.Errorf("%s: include %s: %w", p, in.Namespace, err)
+				}
+				tplVarNames(raw, names)
+			}
+		}
 		items = append(items, cg.Pair(d.S("/R/"+p), d.fileCoq(tf, true)))
 	}
+	if len(names) > 0 {
+		items = append(items, cg.Pair(cg.Str("$ENV"), d.envFileCoq(names)))
+	}
 	return cg.List(items), parsed, nil
+}
+
+// tplGlue checks the harness's reading of a template against the real templater on three variable environments.
+func tplGlue(raw string) error {
+	segs, ok := parseTpl(raw)
+	if !ok {
+		return fmt.Errorf("template %q is outside the modelled family", raw)
+	}
+	envs := []map[string]string{{}, {}, {}}
+	for _, sg := range segs {
+		if sg.IsVar {
+			envs[1][sg.Name] = "zz"
+			envs[2][sg.Name] = ""
+		}
+	}
+	for _, e := range envs {
+		vs := ast.NewVars()
+		for k, v := range e {
+			vs.Set(k, ast.Var{Value: v})
+		}
+		cache := &templater.Cache{Vars: vs}
+		got := templater.Replace(raw, cache)
+		if cache.Err() != nil || got != evalTpl(segs, e) {
+			return fmt.Errorf("template %q: real templater gives %q, harness %q (%v)", raw, got, evalTpl(segs, e), cache.Err())
+		}
+	}
+	return nil
 }
 
 type guarded struct {
